@@ -15,7 +15,7 @@ class C20(Prop):
     technique = "Coq proofs over all health-check histories and thresholds (gating; exit exactly at the first window of consecutive failures, characterised completely) and the graceful-shutdown decision table + black-box run of the real agent binary with a scripted health endpoint, a fake proxy logging list calls, and SIGINT/SIGTERM at chosen request phases"
     level_text = ("C20_gate / C20_gate_never prove that polling starts right after the first passing check and never before; C20_unhealthy proves for every history of checks and every threshold (minimum 1) that the agent terminates itself exactly at the first check at which the number of consecutive failures reaches the threshold "
                   "(a success resets it) and otherwise never; C20_graceful states the shutdown decisions (exit at the signal without the option, at t_sig + G with it; a request whose answer and upload complete before that is answered; no list call starts after the signal). "
-                  "PARTIAL: exit times and process status are runtime behaviour. The real agent binary is run black-box (fresh process per scenario): late-starting backends, check patterns with thresholds 0-3, both signals at idle and at-backend phases, grace periods 0/1/3 s against backend latencies; "
+                  "PARTIAL: exit times and process status are runtime behaviour. The real agent binary is run black-box (fresh process per scenario): late-starting backends, check patterns with thresholds 0-3, both signals at idle and at-backend phases (sent while a pending-list call is in flight; that call ends empty or with a 503), grace periods 0/1/2/3 s against backend latencies; "
                   "the health checks it made, the list calls it started, exit time and status and the uploaded response are compared with the model (1 s timing slack).")
     level_note = ("Trusted: Coq kernel, harness (harness/cmd/lifecycle, fake metadata server for the agent's credentials), OS signals and clock. Modelled, not verified: time.Ticker / time.Sleep, log.Fatal exits with status 1, os/signal. "
                   "The model works on check indices and abstract ticks; the 1 s health-check interval and the margins are harness choices.")
@@ -96,7 +96,8 @@ class C20(Prop):
                     res.append(("graceful:late-exit-without-option", "exit %d ms after the signal although no grace period is configured" % (r["exit_ms"] - sig), rp))
                 if g > 0 and not (sig + g - 150 <= r["exit_ms"] <= sig + g + SLACK):
                     res.append(("graceful:exit-time", "exit %d ms after the signal, grace period %d ms" % (r["exit_ms"] - sig, g), rp))
-                if g > 0 and any(t > sig + 500 for t in r["list_starts_ms"]):
+                # the signal is sent 100-250 ms into a pending-list call: that call may finish, no other may start
+                if g > 0 and any(t > sig + 120 for t in r["list_starts_ms"]):
                     res.append(("graceful:polled-after-signal", "a pending-list call started %d ms after the signal" % (max(r["list_starts_ms"]) - sig), rp))
                 if g > 0 and sc["phase"] == "at-backend" and r["at_backend_ms"] >= 0 and r["at_backend_ms"] + sc["backend_ms"] + 400 < sig + g and not r["upload_ok"]:
                     res.append(("graceful:request-not-answered", "a request whose backend finished %d ms before the end of the grace period was not answered in full" % (sig + g - r["at_backend_ms"] - sc["backend_ms"]), rp))
